@@ -135,6 +135,7 @@ class Sweep:
         self.mark_sets_used = set()
         self.features = {}
         self.scripts = {}
+        self.required = {}
 
     def ref(self, where, gids):
         self.refs.setdefault(where, set()).update(gids)
@@ -332,12 +333,14 @@ class Layout:
                 langs = [r.d[sc + 4 + 6 * k:sc + 8 + 6 * k].decode("latin-1") for k in range(nl)]
                 self.S.scripts.setdefault(self.tag, {})[stag] = (["dflt"] if dl else []) + langs
                 lss = ([sc + dl] if dl else []) + [sc + r.u16(sc + 4 + 6 * k + 4) for k in range(nl)]
-                for ls in lss:
+                lnames = (["dflt"] if dl else []) + langs
+                for ls, lname in zip(lss, lnames):
                     req = r.u16(ls + 2)
                     cnt = r.u16(ls + 4)
                     idx = r.u16s(ls + 6, cnt)
                     if req != 0xFFFF:
                         idx = idx + [req]
+                        self.S.required.setdefault(self.tag, []).append((stag, lname, req))
                     for fi in idx:
                         if fi >= nfeat:
                             self.S.problem(self.tag, "feature-index", "LangSys names feature %d of %d" % (fi, nfeat))
